@@ -239,6 +239,11 @@ class PeeweeStorage(AbstractStorage):
             raise ValueError("Bucket did not exist, could not get metadata")
 
     def insert_one(self, bucket_id: str, event: Event) -> Event:
+        if event.id is not None and self._get_event(bucket_id, event.id) is None:
+            # An event with an id is an update of that event in this bucket.
+            # If this bucket has no such event there is nothing to update,
+            # and an event with that id in another bucket must not be touched.
+            return event
         e = EventModel.from_event(self.bucket_keys[bucket_id], event)
         e.save()
         event.id = e.id
